@@ -9,6 +9,8 @@ Ties
 * (V) values: real spline / Bernstein bases at dyadic points versus Cox-de Boor / Bernstein evaluation over Q in Lean
   (`bspline_pou`, `bernstein_pou` speak about exactly these functions).
 * (X) Bernstein coefficient tables regenerated from /repo and re-proved to sum to the constant one (`bernstein_table_pou`).
+* `c12x.py`: periodic structured bases (seam continuity, dof-count formula), multipatch splines with per-edge knot data on randomly
+  oriented keys (versus Cox-de Boor), `Basis.__getitem__` for all slice forms (versus numpy slicing and the Lean model `basisGetSlice`).
 * spec-oracle streams on the real code over the full list of basis types (obligation kind 'exploration' where no theorem
   covers the mechanism): evaluation = Inflate(Polyval(coefficients)), get_support/get_dofs mutual inverses, partition of
   unity, advertised continuity across all interfaces, polynomial reproduction.
@@ -20,6 +22,7 @@ import itertools, math, functools, contextlib, traceback
 from fractions import Fraction
 import numpy
 from .common import Infra
+from . import c12x
 
 TOL = 1e-8          # a deviation >= TOL is a failing input
 TIGHT = 1e-10       # what we expect on the unchanged tree (reported in the evidence when exceeded)
@@ -1311,6 +1314,9 @@ def run(c):
     c.rule = ('merge sets: random index lists over n<=14 incl. negative (wrapping), out-of-range and empty sets, plus every merge request issued by '
               'real basis constructions; spline requests: 1-3 dimensions x degree 0..4 x continuity x explicit/coarse/default knot multiplicities x '
               'periodic x knot values x removedofs, incl. inadmissible ones; basis zoo: every basis type on small random meshes (see distribution); '
+              'periodic structured bases: every basis type x shapes with 1-3 elements per axis x all subsets of periodic axes (1-D complete); '
+              'multipatch splines: random layouts x per-edge-family nelems / knot multiplicities / knot values on randomly oriented edge keys; '
+              'basis[index]: all start/stop/step combinations around 0, +-1, +-n, out of range, steps 1,2,3,n,n+1,negative,0, masks, index arrays on 14 basis kinds; '
               'a case is non-trivial when a basis was actually built / a merge set has >= 2 members; distinct by full parameters')
     c.assumptions += ['numeric streams compare floats with tolerance: deviation >= 1e-8 is a failing input (expected level 1e-12)',
                       'nutils_poly (third-party, not anchored) is trusted to evaluate coefficient tables',
@@ -1344,10 +1350,23 @@ def run(c):
         except StopIteration:
             pass
 
+    import sys
+    H = sys.modules[__name__]
+
+    def plain(fn, *args):
+        # a stream without model requests (runs in its turn so that the random sequences of the other streams do not depend on it)
+        fn(*args)
+        return
+        yield
+
+    c12x.known_c0_edge_regression(c, mesh)
     run_streams(c, [('zoo', zoo_stream()),
                     ('spline', stream_spline(c, mesh, function, poly, 80 if quick else 3000)),
                     ('_basis_spline', stream_vs(c, mesh, poly, 60 if quick else 2000)),
                     ('bernstein', stream_bernstein(c, element)),
-                    ('merge', stream_merge(c, util, 300 if quick else 10000, captured))])
+                    ('merge', stream_merge(c, util, 300 if quick else 10000, captured)),
+                    ('periodic', plain(c12x.stream_periodic, c, H, mods, poly)),
+                    ('multipatch-spline', c12x.stream_multipatch_spline(c, H, mods, poly, 50 if quick else 1500)),
+                    ('slices', c12x.stream_slices(c, H, mods, 1 if quick else 12))])
     for b in broken:
         c.broken_no_input('proof', b, dict(detail=b))
